@@ -135,6 +135,9 @@ func buildCallGraph(P *Prog) *CallGraph {
 					// an interface method may also be implemented outside the module
 					recvT := c.Value.Type()
 					name := types.TypeString(recvT, func(p *types.Package) string { return p.Path() }) + "." + c.Method.Name()
+					if isHTTPDo(c) {
+						name = "(*net/http.Client).Do"
+					}
 					cg.Ext[fn] = append(cg.Ext[fn], &ExtCall{Site: site, Caller: fn, Method: c.Method, Name: name})
 					extSeen[site] = true
 				} else if sc := c.StaticCallee(); sc != nil {
